@@ -41,6 +41,8 @@ Init == /\ failures = 0 /\ open = FALSE /\ sinceFail = SatF
         /\ res = "none" /\ act = "Init" /\ consec = 0 /\ scn = <<>>
 
 HalfOpenWindow == open /\ sinceFail > Timeout
+\* would an Ask be admitted right now?
+Admits == ~open \/ (sinceFail > Timeout /\ (~probing \/ sinceProbe >= ProbeWindow))
 
 \* IsOpen(url) — answer "admit" means IsOpen returned false.
 Ask ==
